@@ -26,7 +26,7 @@ RULE = ("agent arm: 0-6 initial agents, 1-3 mutator systems at priorities above/
         "in ~25% of runs, real temporary files in ~10%; non-trivial = population changed inside >=1 timestep before the "
         "collector's turn (agent arm) / >=2 complete flush cycles with write_count>=1 and >=1 empty collection (file "
         "arm); distinct = abstract schedule shape"
-        "; also: composite function that keeps and updates ONE dict, empty-string records, environment object replaced between timesteps, systems removed next to the collector, stress runs with large write_count; rare switch for known finding F7, per-agent / composite functions given as falsy callable objects, a model class with its own `timestep` attribute")
+        "; also: composite function that keeps and updates ONE dict, empty-string records, environment object replaced between timesteps, systems removed next to the collector, stress runs with large write_count; rare switch for known finding F7, per-agent / composite functions given as falsy callable objects, a model class with its own `timestep` attribute, file collectors whose collect() returns a value")
 COMPONENTS = {"real": ["ECAgent.Collectors.AgentCollector.collect", "FileCollector.execute/write_records", "Collector",
                        "ECAgent.Core scheduler and Environment", "builtins.open + OS (real-file runs only)"],
               "stub": ["open() as seen by ECAgent.Collectors -> simkit.simdisk.SimDisk (durable at flush/close/buffer "
@@ -34,7 +34,7 @@ COMPONENTS = {"real": ["ECAgent.Collectors.AgentCollector.collect", "FileCollect
 PROBES = ["empty_record_suppressed", "collector_off_window", "removed_by_higher_priority_same_step",
           "added_by_higher_priority_same_step", "changed_after_collector_turn", "composite_used", "value_zero_recorded",
           "crash_at_flush_boundary", "crash_mid_flush", "real_file", "composite_shared_dict", "empty_string_record", "environment_replaced", "system_removed_next_to_collector", "empty_collection", "empty_flush",
-          "preexisting_content", "two_file_collectors", "buffer_overflow_mid_flush", "falsy_callable_objects_as_functions", "model_with_own_timestep_attribute"]
+          "preexisting_content", "two_file_collectors", "buffer_overflow_mid_flush", "falsy_callable_objects_as_functions", "model_with_own_timestep_attribute", "collect_returns_a_value"]
 TECHNIQUE = "deterministic simulation: population changing on a seeded schedule inside timesteps vs a replaying reference; simulated disk with crash points and the conservation invariant file + held = collected"
 LEVEL_TEXT = ("Seeded search over population-change schedules, collector windows and disk behaviour; after every timestep the "
               "records equal the reference's and earlier records are untouched; for the file collector, after every disk event "
@@ -131,6 +131,9 @@ def generate(rng, tier):
     if sc["arm"] == "agent":
         sc["falsy_callables"] = rng.random() < 0.15     # the per-agent / composite functions are falsy callable objects
     sc["shadow_timestep"] = rng.choice([None, None, None, None, 0.25, 2.0, 7])     # the model's own `timestep` attribute
+    if sc["arm"] == "file":
+        for c_ in sc["collectors"]:
+            c_["returns"] = rng.random() < 0.15
     return sc
 
 
@@ -428,6 +431,10 @@ class RecFile(COL.FileCollector):
             self.collected.append(rec)
         if k == 0:
             self.world.ctx.probe("empty_collection")
+        if self.spec.get("returns"):
+            # a user's collect() may hand something back (the line it just stored, a count ...): nobody asked for it
+            self.world.ctx.probe("collect_returns_a_value")
+            return rec if k else "nothing-collected;"
 
 
 class FileWorld:
